@@ -43,6 +43,7 @@ def main (args : List String) : IO UInt32 := do
     loopState stdin stdout (chainStep cap) st; return 0
   | ["hash"] => loopPure stdin stdout hashStep; return 0
   | ["secrecy"] => loopPure stdin stdout secrecyStep; return 0
+  | ["codec"] => loopPure stdin stdout codecStep; return 0
   | ["store", backend] =>
     match storeInit backend with
     | some st => loopState stdin stdout storeStep st; return 0
